@@ -96,6 +96,7 @@ func bindingOf(v ssa.Value, fn *ssa.Function, mc *ssa.MakeClosure) ssa.Value {
 
 func runC07(c *Ctx) {
 	p := c.P
+	wsContract(c, "C07.R5")
 	c.floor("C07.R1", 4)
 	nPairs := 0
 	for _, fn := range p.ModFuncs {
